@@ -14,6 +14,7 @@ cd "$WT"
 {
 echo "== apply patch"; git apply "$SRC/patch.diff" || { echo "PATCH-DOES-NOT-APPLY"; exit 3; }
 # demo files: everything under SEED/tests -> tests/
+if [ -d "$SRC/features" ]; then mkdir -p tests/features; cp -r "$SRC/features/." tests/features/; fi
 if [ -d "$SRC/tests" ]; then cp -r "$SRC/tests/." tests/; else for f in "$SRC"/*.rs; do [ -e "$f" ] && cp "$f" tests/; done; for f in "$SRC"/*.feature; do [ -e "$f" ] && mkdir -p tests/features/seed_demo && cp "$f" tests/features/seed_demo/; done; fi
 DEMOS=$(cd tests && ls seed_demo*.rs 2>/dev/null | sed 's/\.rs$//')
 echo "demos: $DEMOS"
@@ -35,6 +36,7 @@ echo "DEMO_WITHOUT_CHANGE_PASSES=$WITHOUT"
 mkdir -p /verif/seeded/$ID
 cp "$SRC/patch.diff" /verif/seeded/$ID/patch.diff
 [ -d "$SRC/tests" ] && cp -r "$SRC/tests" /verif/seeded/$ID/demo
+[ -d "$SRC/tests" ] || { mkdir -p /verif/seeded/$ID/demo; cp "$SRC"/*.rs /verif/seeded/$ID/demo/ 2>/dev/null; [ -d "$SRC/features" ] && cp -r "$SRC/features" /verif/seeded/$ID/demo/; }
 cp "$SRC"/demo.txt /verif/seeded/$ID/ 2>/dev/null
 cp "$SRC"/meta.json /verif/seeded/$ID/agent_meta.json 2>/dev/null
 grep -E "^(DEMO_|SUITE_|PATCH)" "$LOG" > /verif/seeded/$ID/confirmation.txt
